@@ -254,17 +254,21 @@ def h_vod_time(sx, name):
     sx.note('expect', {'refused': refused})
 
 
-def _xref_ref(name, md_ref):
+def _xref_ref(name, md_ref, ref_ts=None):
     """a stream timing reference that is *not* this representation: same timescale and nominal
     segment duration, its own media duration"""
     from dashlive.mpeg.dash.reference import StreamTimingReference
     j = common.layouts()[name]
+    if ref_ts is not None:     # a reference on another timescale (video reference for an audio track)
+        return StreamTimingReference(media_name=name + '_ref', media_duration=md_ref,
+                                     num_media_segments=len(j['segments']) - 1,
+                                     segment_duration=j['segment_duration'] * ref_ts // j['timescale'], timescale=ref_ts)
     return StreamTimingReference(media_name=name + '_ref', media_duration=md_ref,
                                  num_media_segments=len(j['segments']) - 1,
                                  segment_duration=j['segment_duration'], timescale=j['timescale'])
 
 
-def h_vod_xref(sx, name):
+def h_vod_xref(sx, name, ref_ts=None):
     """a representation whose stored duration differs from the stream timing reference (symbolic
     reference duration from inside the representation's last segment to two segments past its end): the vod SegmentTimeline still
     lists the *stored* segments - count, start, every duration, total = stored media duration"""
@@ -277,8 +281,13 @@ def h_vod_xref(sx, name):
     N = rep.num_media_segments
     stored = [s['duration'] for s in j['segments'][1:]]
     md = sum(stored)
-    md_ref = sx.int('ref_media_duration', md - stored[-1] + 1, md + 2 * max(stored))
-    timing = DashTiming(tk.ast_real(), _xref_ref(name, md_ref), common.live_opts(mode='vod'))
+    if ref_ts is None:
+        md_ref = sx.int('ref_media_duration', md - stored[-1] + 1, md + 2 * max(stored))
+    else:   # reference ticks whose conversion (md_ref * ts // ref_ts) stays above md - last
+        ts = j['timescale']
+        lo = -(-(md - stored[-1] + 1) * ref_ts // ts)
+        md_ref = sx.int('ref_media_duration', lo, (md + 2 * max(stored)) * ref_ts // ts)
+    timing = DashTiming(tk.ast_real(), _xref_ref(name, md_ref, ref_ts), common.live_opts(mode='vod'))
     rep.set_dash_timing(timing)
     try:
         entries = tk.expand_timeline(rep.generateSegmentTimeline())
@@ -332,6 +341,9 @@ def instances(tier):
         out.append({'name': f'vod-time[{name}]', 'fn': h_vod_time, 'params': {'name': name},
                     'opts': {'fork_limit': 200}})
         out.append({'name': f'vod-xref[{name}]', 'fn': h_vod_xref, 'params': {'name': name}})
+        if common.layouts()[name]['timescale'] != 240:
+            out.append({'name': f'vod-xref[{name},ref_ts=240]', 'fn': h_vod_xref, 'params': {'name': name, 'ref_ts': 240},
+                        'opts': {'fork_limit': 400}})
     for ts in ([240, 44100, 90000] if tier == 'quick' else [1, 240, 1000, 44100, 48000, 90000, 10000000]):
         out.append({'name': f'duration[ts={ts}]', 'fn': h_duration, 'params': {'ts': ts},
                     'opts': {'fork_limit': 1100, 'max_paths': 100000}})
@@ -449,7 +461,7 @@ def replay(case):
             j = json.loads(json.dumps(common.layouts()[params['name']]))
             rep = Representation(**j)
             stored = [s['duration'] for s in j['segments'][1:]]
-            timing = DashTiming(tk.ast_real(), _xref_ref(params['name'], inputs['ref_media_duration']),
+            timing = DashTiming(tk.ast_real(), _xref_ref(params['name'], inputs['ref_media_duration'], params.get('ref_ts')),
                                 common.live_opts(mode='vod'))
             rep.set_dash_timing(timing)
             entries = tk.expand_timeline(rep.generateSegmentTimeline())
